@@ -28,6 +28,11 @@ func CCITTCombo(p P) string {
 	return fmt.Sprintf("ccitt/%s/eol=%d/align=%d/eob=%d/rows=%d", kc, b2i(p.Eol), b2i(p.Align), b2i(!p.Ieob), b2i(p.Rows > 0))
 }
 
+// ccittMaxRows: FilterCCITTFax.Decode bounds its output to images of at most
+// 65536 rows (internal/limits.MaxImageHeight); taller inputs are outside the
+// admissible shape (FilterPipe.tla).
+const ccittMaxRows = 1 << 16
+
 // CCITTAdmissible states the admissible shape of FilterPipe.tla for CCITTFax:
 // at most /Rows rows, and the data must be delimited by the format itself.
 func CCITTAdmissible(p P, nrows int) bool {
